@@ -51,18 +51,15 @@ static inline void c02_shift_slot(ELEM *slot, const struct c02_shift *h, size_t 
         if (h->is_move) ELEM_move_assign(&scratch, slot); else ELEM_copy_assign(&scratch, slot);
     }
 }
-/* common part: first/last/dpos -> indices, ISO preconditions, then the loop (native) or the sparse effect (cbmc) */
-static inline void c02_shift(ELEM *first, ELEM *last, ELEM *d_lo, int is_move, int backward, const char *unused)
+/* the element-wise loop, as ISO writes it */
+static inline void c02_shift_loop(ELEM *first, ELEM *d_lo, size_t N, int is_move, int backward)
 {
-    (void)unused;
-    __CPROVER_assert(__CPROVER_same_object(first, last) && __CPROVER_same_object(first, d_lo), "spec: std algorithm stub models ranges inside one block");
-    __CPROVER_assert(first <= last, "std: move / move_backward / copy: [first, last) is a valid range");
-    if (!(first <= last)) __CPROVER_assume(0);
-    size_t N = (size_t)(last - first);
-#ifdef C02_ALGO_LOOPS
     if (backward) for (size_t n = 0; n < N; n++) { if (is_move) ELEM_move_assign(d_lo + (N - 1 - n), first + (N - 1 - n)); else ELEM_copy_assign(d_lo + (N - 1 - n), first + (N - 1 - n)); }
     else for (size_t n = 0; n < N; n++) { if (is_move) ELEM_move_assign(d_lo + n, first + n); else ELEM_copy_assign(d_lo + n, first + n); }
-#else
+}
+/* its effect on the tracked slots, everything else havocked (cbmc) */
+static inline void c02_shift_sparse(ELEM *first, ELEM *last, ELEM *d_lo, size_t N, int is_move, int backward)
+{
     ELEM *base = C02_BASE(first);
     struct c02_shift h = { C02_NSLOTS(first), C02_IDX(first), C02_IDX(last), N, C02_IDX(d_lo), is_move, backward };
     /* ISO: backward: d_last not in (first, last]; forward: d_first not in [first, last) - except the harmless self-assignment Dlo == F */
@@ -73,7 +70,11 @@ static inline void c02_shift(ELEM *first, ELEM *last, ELEM *d_lo, int is_move, i
     if (!(h.L <= h.NS && h.Dlo + N <= h.NS)) __CPROVER_assume(0);
     if (N == 0) return;
     /* local copies of the tracked slots, pre-state values of their source slots */
+#ifdef C02_NO_J
+    _Bool exk = g_k < h.NS, exj = 0;
+#else
     _Bool exk = g_k < h.NS, exj = g_j < h.NS && g_j != g_k;
+#endif
     ELEM ck, cj, sk, sj;
     ck.g_bits = exk ? base[g_k].g_bits : 0; cj.g_bits = exj ? base[g_j].g_bits : 0;
     sk.g_bits = (exk && g_k >= h.Dlo && g_k - h.Dlo < N) ? base[g_k - h.Dlo + h.F].g_bits : 0;
@@ -86,6 +87,19 @@ static inline void c02_shift(ELEM *first, ELEM *last, ELEM *d_lo, int is_move, i
     __CPROVER_havoc_object(base);
     if (exk) base[g_k] = ck;
     if (exj) base[g_j] = cj;
+}
+/* common part: valid range, then the loop (native replay) or the sparse effect (cbmc) */
+static inline void c02_shift(ELEM *first, ELEM *last, ELEM *d_lo, int is_move, int backward, const char *unused)
+{
+    (void)unused;
+    __CPROVER_assert(__CPROVER_same_object(first, last) && __CPROVER_same_object(first, d_lo), "spec: std algorithm stub models ranges inside one block");
+    __CPROVER_assert(first <= last, "std: move / move_backward / copy: [first, last) is a valid range");
+    if (!(first <= last)) __CPROVER_assume(0);
+    size_t N = (size_t)(last - first);
+#ifdef C02_ALGO_LOOPS
+    c02_shift_loop(first, d_lo, N, is_move, backward);
+#else
+    c02_shift_sparse(first, last, d_lo, N, is_move, backward);
 #endif
 }
 /* std::move_backward(first, last, d_last): for n = 1..N  *(d_last - n) = std::move(*(last - n)); returns d_last - N */
